@@ -109,7 +109,7 @@ pub fn generate_body(tier: Tier) -> Vec<String> {
         let pkg = format!("body_{k}");
         let dir = harness_dir().join("gen").join(&pkg);
         let toml = format!(
-            "[package]\nname = \"{pkg}\"\nversion = \"0.0.0\"\nedition = \"2021\"\n[dependencies]\nvmodel = {{ path = \"../../vmodel\" }}\nvrt = {{ path = \"../../vrt\" }}\ndarling = {{ workspace = true }}\nsyn = {{ workspace = true }}\n"
+            "[package]\nname = \"{pkg}\"\nversion = \"0.0.0\"\nedition = \"2021\"\n[dependencies]\nvmodel = {{ path = \"../../vmodel\" }}\nvrt = {{ path = \"../../vrt\" }}\ndarling = {{ workspace = true, features = [\"suggestions\"] }}\nsyn = {{ workspace = true }}\n"
         );
         write_if_changed_pub(&dir.join("Cargo.toml"), &toml);
         let mut src = String::from("#![allow(dead_code, non_snake_case, unused_variables, non_camel_case_types)]\n");
